@@ -294,8 +294,8 @@ theorem coerceValue_stable_add (reg : Reg) (fuel k : Nat) (ty : Ty) (v : JV) (h 
     have : NoFuel (coerceValue reg (fuel + k) ty v) := by rw [ih]; exact h
     rw [← Nat.add_assoc, coerceValue_stable reg (fuel + k) ty v this, ih]
 
-theorem vfaCore_congr {reg : Reg} {rec rec' : Ty → Lit → R} (hrr : ∀ t l, NoFuel (rec t l) → rec' t l = rec t l)
-    (t : Ty) (l : Lit) (h : NoFuel (vfaCore reg rec t l)) : vfaCore reg rec' t l = vfaCore reg rec t l := by
+theorem vfaCore_congr {vars : Option (List (String × PV))} {reg : Reg} {rec rec' : Ty → Lit → R} (hrr : ∀ t l, NoFuel (rec t l) → rec' t l = rec t l)
+    (t : Ty) (l : Lit) (h : NoFuel (vfaCore vars reg rec t l)) : vfaCore vars reg rec' t l = vfaCore vars reg rec t l := by
   unfold vfaCore at h ⊢
   split
   · rfl
